@@ -163,6 +163,10 @@ pub fn decode_vec<const N: usize>(base38_str: &str) -> Result<heapless::Vec<u8, 
 pub fn decode(base38_str: &str) -> impl Iterator<Item = Result<u8, Error>> + '_ {
     let stru = base38_str.as_bytes();
 
+    // Set once the first error has been yielded: the iterator ends right after it
+    // (the error itself must reach the caller, it must not be swallowed).
+    let mut failed = false;
+
     (0..stru.len() / 5)
         .flat_map(move |index| {
             let offset = index * 5;
@@ -172,7 +176,11 @@ pub fn decode(base38_str: &str) -> impl Iterator<Item = Result<u8, Error>> + '_ 
             let offset = stru.len() / 5 * 5;
             decode_base38(&stru[offset..])
         })
-        .take_while(Result::is_ok)
+        .take_while(move |result| {
+            let proceed = !failed;
+            failed = result.is_err();
+            proceed
+        })
 }
 
 fn decode_base38(chars: &[u8]) -> impl Iterator<Item = Result<u8, Error>> {
@@ -201,19 +209,20 @@ fn decode_base38(chars: &[u8]) -> impl Iterator<Item = Result<u8, Error>> {
         cerr = Some(ErrorCode::InvalidData)
     }
 
-    (0..repeat)
-        .map(move |_| {
-            if let Some(err) = cerr {
-                Err(err.into())
-            } else {
-                let byte = (value & 0xff) as u8;
+    // An invalid chunk yields exactly one item: its error
+    let count = if cerr.is_some() { 1 } else { repeat };
 
-                value >>= 8;
+    (0..count).map(move |_| {
+        if let Some(err) = cerr {
+            Err(err.into())
+        } else {
+            let byte = (value & 0xff) as u8;
 
-                Ok(byte)
-            }
-        })
-        .take_while(Result::is_ok)
+            value >>= 8;
+
+            Ok(byte)
+        }
+    })
 }
 
 fn decode_char(c: u8) -> Result<u8, Error> {
@@ -243,6 +252,24 @@ mod tests {
             unwrap!(encode_string::<{ ENCODED.len() }>(&DECODED)),
             ENCODED
         );
+    }
+
+    #[test]
+    fn base38_decode_reports_errors() {
+        // An invalid character, and a length that is not a whole number of chunks,
+        // are errors - not a silently truncated result
+        assert!(decode_vec::<16>("Z").is_err());
+        assert!(decode_vec::<16>("ABC").is_err());
+        assert!(decode_vec::<16>("-MOA5!").is_err());
+        assert!(decode_vec::<16>("-MOA57ZU02IT2L2BJ0!").is_err());
+        assert!(decode_vec::<16>("-MOA57ZU02IT2L2BJ0000").is_err());
+        // The bytes decoded before the error are still yielded first
+        let mut iter = decode("00000!");
+        assert_eq!(iter.next().map(|r| r.ok()), Some(Some(0)));
+        assert_eq!(iter.next().map(|r| r.ok()), Some(Some(0)));
+        assert_eq!(iter.next().map(|r| r.ok()), Some(Some(0)));
+        assert!(matches!(iter.next(), Some(Err(_))));
+        assert!(iter.next().is_none());
     }
 
     #[test]
